@@ -4,6 +4,7 @@ go 1.23.0
 
 require (
 	github.com/anishathalye/porcupine v1.3.0
+	github.com/cespare/xxhash/v2 v2.3.0
 	github.com/hashicorp/memberlist v0.5.3
 	github.com/olric-data/olric v0.0.0
 	github.com/redis/go-redis/v9 v9.7.3
@@ -15,7 +16,6 @@ require (
 	github.com/armon/go-metrics v0.4.1 // indirect
 	github.com/bits-and-blooms/bitset v1.22.0 // indirect
 	github.com/buraksezer/consistent v0.10.0 // indirect
-	github.com/cespare/xxhash/v2 v2.3.0 // indirect
 	github.com/dgryski/go-rendezvous v0.0.0-20200823014737-9f7001d12a5f // indirect
 	github.com/google/btree v1.1.3 // indirect
 	github.com/hashicorp/errwrap v1.1.0 // indirect
